@@ -19,7 +19,63 @@ RULE = ("case = topology + per barrier (n participants of mixed kinds, k rounds,
 
 
 @st.composite
+def early_reinit(draw, ctx):
+    """"... immediately reusable ... after ABT_barrier_reinit ... while slow ones are still
+    leaving the previous round": one participant reinitialises the barrier (to another
+    count) as soon as it is back from the last round and starts the next generation of
+    participants, while the slow ones of the old round - external threads asleep in the
+    kernel in particular - have not come back yet."""
+    topo, npools, nxs = draw(simple_topology(max_xs=3))
+    lines = [draw(sched_line(ctx))] + topo
+    n1 = draw(st.integers(2, 5))
+    n2 = draw(st.integers(1, 5).filter(lambda v: v != n1))
+    lines.append("barrier 0 n=%d" % n1)
+    k1 = draw(st.integers(1, 3))
+    k2 = draw(st.integers(1, 3))
+    units, exts, creates = [], [], []
+    d_kind = draw(st.sampled_from(["ult", "main"]))
+    main_part = []
+    for p in range(n1):
+        kind = d_kind if p == 0 else draw(st.sampled_from(["ext", "ext", "ult"]))
+        prog = ["bwait 0"] * k1
+        if p == 0:
+            prog += ["breinit 0 %d" % n2, "fset 1"]
+            if draw(st.booleans()):
+                prog += ["bwait 0"] * k2   # the fast caller re-enters the new generation
+                n2_left = n2 - 1
+            else:
+                n2_left = n2
+        if kind == "main":
+            main_part = prog
+        elif kind == "ext":
+            exts.append(prog)
+        else:
+            u = len(units)
+            units.append("unit %d type=ult named=%d pool=%d : %s" %
+                         (u, int(draw(st.booleans())), draw(st.integers(0, npools - 1)), "; ".join(prog)))
+            creates.append("create %d" % u)
+    for p in range(n2_left):
+        kind = draw(st.sampled_from(["ext", "ult", "ult"]))
+        prog = ["fwait 1"] + ["bwait 0"] * k2
+        if kind == "ext" and len(exts) < 10:
+            exts.append(prog)
+        else:
+            u = len(units)
+            units.append("unit %d type=ult named=%d pool=%d : %s" %
+                         (u, int(draw(st.booleans())), draw(st.integers(0, npools - 1)), "; ".join(prog)))
+            creates.append("create %d" % u)
+    for i, p in enumerate(exts):
+        lines.append("ext %d : %s" % (i, "; ".join(p)))
+    lines += units
+    lines.append("main : " + "; ".join(creates + main_part))
+    lines.append("note earlyreinit")
+    return "\n".join(lines) + "\n"
+
+
+@st.composite
 def cases(draw, ctx):
+    if ctx.get("variant") == "earlyreinit":
+        return draw(early_reinit(ctx))
     topo, npools, nxs = draw(simple_topology(max_xs=3))
     lines = [draw(sched_line(ctx))] + topo
     nb = draw(st.sampled_from([1, 1, 2]))
@@ -108,11 +164,14 @@ def classify(text, res, ctx):
 
 
 def nontrivial(text, res, ctx):
+    if "note earlyreinit" in text:
+        return stat(res, "barrier_reinit") >= 1 and "\next " in text
     return stat(res, "barrier_overlap") >= 1 and stat(res, "barrier_waits") >= 4
 
 
 PLAN = {
-    "quick": [("coarse", 10, 250), ("san", 4, 80), ("native", 2, 150)],
+    "quick": [("coarse", 9, 250), ("san", 4, 80), ("native", 2, 150), ("coarse", 3, 250, "earlyreinit"),
+              ("native", 1, 150, "earlyreinit")],
     "thorough": [("coarse", 6, 5000), ("fine", 6, 3000), ("san", 2, 1500), ("nopool", 1, 1000),
-                 ("native", 1, 2500)],
+                 ("native", 1, 2500), ("coarse", 3, 4000, "earlyreinit"), ("native", 1, 2000, "earlyreinit")],
 }
